@@ -2,6 +2,7 @@ import XgcmModel.Model.UFunc
 import XgcmModel.Proofs.Pad
 import XgcmModel.Proofs.Binding
 import XgcmModel.Gen.Regex
+import Mathlib.Data.List.Forall2
 /-
   C11 — Grid ufuncs receive padded core dims last and return declared positions.
   `Gen.ufuncStoredOptions`, `Gen.ufuncCallTimeOptions`, `Gen.ufuncForwarded` are re-extracted
@@ -133,6 +134,73 @@ theorem off_position_refused (g : GridM α) (sig : USig) (args : List (NDArr α)
       · exact ⟨_, rfl⟩
       · simp only [hbad, Bool.false_eq_true, not_false_eq_true, if_true]
         exact ⟨_, rfl⟩
+
+/-- success of a `mapM` in the error monad: every element was mapped successfully, in order -/
+theorem mapM_ok_forall₂ {β γ : Type} (f : β → Except Err γ) (l : List β) (r : List γ)
+    (h : l.mapM f = .ok r) : List.Forall₂ (fun a b => f a = .ok b) l r := by
+  induction l generalizing r with
+  | nil =>
+    simp only [List.mapM_nil, pure, Except.pure] at h
+    cases h; exact List.Forall₂.nil
+  | cons a t ih =>
+    rw [List.mapM_cons] at h
+    simp only [bind, Except.bind, pure, Except.pure] at h
+    cases hfa : f a with
+    | error e => rw [hfa] at h; cases h
+    | ok b =>
+      rw [hfa] at h
+      cases ht : t.mapM f with
+      | error e => rw [ht] at h; cases h
+      | ok rt =>
+        rw [ht] at h
+        cases h
+        exact List.Forall₂.cons hfa (ih rt ht)
+
+/-- **What comes back lives on the dimensions of the output positions**: when a call is answered,
+    there is one entry per declared output, and the j-th core dimension of output i is the grid's
+    dimension for (the real axis bound to the j-th dummy name of output i, its declared position). -/
+theorem outputs_on_declared_positions (g : GridM α) (sig : USig) (args : List (NDArr α))
+    (axis : List (List String)) (bw : Option (List (String × Nat × Nat))) (b : KW String) (f : KW α)
+    (pb : Bool) (c : UCall α) (h : applyGridUfunc g sig args axis bw b f pb = .ok c) :
+    ∃ (m : List (String × String)) (outNames : List (List String)),
+      identifyAxes (sig.ins.map (fun a => a.map (·.1))) axis = .ok m ∧
+      List.Forall₂ (fun (a : List (String × Pos)) (names : List String) =>
+        List.Forall₂ (fun (np : String × Pos) r => alookup np.1 m = some r) a names) sig.outs outNames ∧
+      List.Forall₂ (fun (ap : List String × List Pos) (ds : List String) =>
+        List.Forall₂ (fun (np : String × Pos) d => dimOf g np.1 np.2 = .ok d) (List.zip ap.1 ap.2) ds)
+        (List.zip outNames (sig.outs.map (fun a => a.map (·.2)))) c.outDims := by
+  unfold applyGridUfunc at h
+  simp only [bind, Except.bind, pure, Except.pure] at h
+  split at h
+  · cases h
+  · split at h
+    · cases h
+    · rename_i m hm
+      split at h
+      · cases h
+      · rename_i outNames hn
+        split at h
+        · cases h
+        · split at h
+          · cases h
+          · split at h
+            · cases h
+            · rename_i outCore hoc
+              split at h
+              · cases h
+              · split at h
+                · cases h
+                · cases h
+                  refine ⟨m, outNames, hm, ?_, ?_⟩
+                  · have := mapM_ok_forall₂ _ _ _ hn
+                    refine this.imp (fun a names ha => ?_)
+                    have h2 := mapM_ok_forall₂ _ _ _ ha
+                    refine h2.imp (fun np r hr => ?_)
+                    split at hr
+                    · rename_i r' hr'; cases hr; exact hr'
+                    · cases hr
+                  · have := mapM_ok_forall₂ _ _ _ hoc
+                    exact this.imp (fun ap ds hap => mapM_ok_forall₂ _ _ _ hap)
 
 /-- a mismatch in the number of data arguments / axis entries is refused -/
 theorem arity_refused (g : GridM α) (sig : USig) (args : List (NDArr α))
